@@ -218,11 +218,95 @@ Definition in_uint_range (w : N) (n : N) : bool := n <? pow2 (int_bits w).
    declared type has a package-qualified name ("time.Duration", "rty.NLevel") *)
 Definition predeclared (name : str) : bool := negb (existsb (N.eqb 46) name).
 
-(* the value produced for castTo = t (before the pointer wrap) *)
+(* ---- strconv.ParseFloat / ParseComplex on the plain decimal subset
+     [+-]? digits* [. digits*] [ (e|E) [+-]? digits+ ]
+   whose value times 1024 is an integer (values are carried as VFloat (v*1024)).
+   Anything else in the subset is Err 98 (inexact: not modelled); text outside
+   the subset is a syntax error here - "inf", "nan", hexadecimal floats and
+   digit separators are never generated. ---- *)
+Fixpoint digits_val (acc : N) (s : str) : option N :=
+  match s with
+  | [] => Some acc
+  | c :: r => if is_digit c then digits_val (acc * 10 + (c - 48)) r else None
+  end.
+
+Fixpoint span_digits (s : str) : str * str :=
+  match s with
+  | c :: r => if is_digit c then let '(d, rest) := span_digits r in (c :: d, rest) else ([], s)
+  | [] => ([], [])
+  end.
+
+(* magnitude bound of a float of the given size: 2^128 / 2^1024 *)
+Definition float_bound (bits : N) : Z := Z.of_N (if bits =? 32 then pow2 128 else pow2 1024).
+
+Definition parse_float (bits : N) (s : str) : outcome Z :=
+  let '(neg, body) :=
+    match s with
+    | c :: r => if c =? 45 then (true, r) else if c =? 43 then (false, r) else (false, s)
+    | [] => (false, s)
+    end in
+  let '(ip, r1) := span_digits body in
+  let '(fp, r2) := match r1 with 46 :: r => span_digits r | _ => ([], r1) end in
+  match ip, fp with
+  | [], [] => Err e_syntax
+  | _, _ =>
+      let eo : option (bool * N) :=
+        match r2 with
+        | [] => Some (false, 0)
+        | c :: r => if (c =? 101) || (c =? 69) then
+                      let '(eneg, ed) := match r with
+                                         | x :: r' => if x =? 45 then (true, r') else if x =? 43 then (false, r') else (false, r)
+                                         | [] => (false, r) end in
+                      match ed with [] => None | _ => match digits_val 0 ed with Some e => Some (eneg, e) | None => None end end
+                    else None
+        end in
+      match eo, digits_val 0 (ip ++ fp) with
+      | Some (eneg, e), Some m =>
+          let k := N.of_nat (length fp) in
+          let num := m * 1024 * (if eneg then 1 else 10 ^ e) in
+          let den := 10 ^ k * (if eneg then 10 ^ e else 1) in
+          if negb (num mod den =? 0) then Err 98
+          else let v := Z.of_N (num / den) in
+               if (float_bound bits * 1024 <=? v)%Z then Err e_range
+               else Ok (if neg then (- v)%Z else v)
+      | _, _ => Err e_syntax
+      end
+  end.
+
+(* split "a+bi" at the sign that starts the imaginary part (not the sign of an exponent) *)
+Fixpoint imag_split (prev : rune) (acc : str) (s : str) (best : option (str * str)) : option (str * str) :=
+  match s with
+  | [] => best
+  | c :: r =>
+      let here := if ((c =? 43) || (c =? 45)) && negb ((prev =? 101) || (prev =? 69)) && negb (match acc with [] => true | _ => false end)
+                  then Some (acc, s) else best in
+      imag_split c (acc ++ [c]) r here
+  end.
+
+Definition parse_complex (bits : N) (s : str) : outcome val :=
+  let half := if bits =? 64 then 32 else 64 in
+  let s := match s with
+           | 40 :: r => match rev r with 41 :: r' => rev r' | _ => s end
+           | _ => s end in
+  match rev s with
+  | 105 :: rbody =>                                   (* ends in i *)
+      let body := rev rbody in
+      match imag_split 0 [] body None with
+      | Some (re, im) => a <- parse_float half re ;; b <- parse_float half im ;; Ok (VList [VFloat a; VFloat b])
+      | None => b <- parse_float half body ;; Ok (VList [VFloat 0; VFloat b])
+      end
+  | _ => a <- parse_float half s ;; Ok (VList [VFloat a; VFloat 0])
+  end.
+
+(* the value produced for castTo = t (before the pointer wrap).  A declared
+   scalar type is parsed as its kind (parseNumber dispatches on Kind; the only
+   type looked at is time.Duration) and converted by the flatten mangler. *)
 Definition parse_text (t : ty) (s : str) : outcome val :=
   match t with
   | TBasic k name =>
-      if predeclared name then
+      if str_eqb name duration_name then
+        match k with KInt 64 => omap VInt (parse_duration s) | _ => Err 96 end
+      else
         match k with
         | KString => Ok (VStr s)
         | KBool => omap VBool (parse_bool s)
@@ -232,11 +316,9 @@ Definition parse_text (t : ty) (s : str) : outcome val :=
             if w =? 1 then Err e_kind           (* uintptr: parse.String has no case for it *)
             else n <- parse_uint 64 s ;;
                  if in_uint_range w n then Ok (VInt (Z.of_N n)) else Err e_range
-        | KFloat _ | KComplex _ => Err e_unmodelled
+        | KFloat b => omap VFloat (parse_float b s)
+        | KComplex b => parse_complex b s
         end
-      else if str_eqb name duration_name then
-        match k with KInt 64 => omap VInt (parse_duration s) | _ => Err 96 end
-      else Err 96                         (* named scalar: DESIGN finding 7, not modelled here *)
   | TSlice _ _ | TMap _ _ _ => Err e_unmodelled
   | _ => Err e_kind                       (* struct, array, pointer, interface ... *)
   end.
@@ -336,4 +418,7 @@ Fixpoint int_elems (signed : bool) (bits : N) (l : list str) : outcome (list val
   end.
 
 Definition int_slice (signed : bool) (bits : N) (s : str) : outcome (list val) :=
-  int_elems signed bits (split_on 44 [] s).
+  match s with
+  | [] => Ok []                            (* the empty text is the empty slice *)
+  | _ => int_elems signed bits (split_on 44 [] s)
+  end.
